@@ -36,10 +36,10 @@ static pref::Tables tables()
 }
 enum Backend { B_SEQ, B_AVX, B_AVX512, B_WRAP, NB };
 static const char *bname[] = {"seq", "avx", "avx512", "wrapper"};
-struct Case { int backend; size_t rows, cols, dim; int nthreads; size_t batch; /*0 = unbatched builder*/ int content; };
+struct Case { int backend; size_t rows, cols, dim; int nthreads; size_t batch; /*0 = unbatched builder*/ int content; int outer; /*> 0: called by each of `outer` threads of a parallel region of the caller*/ };
 static std::string casestr(const Case &c)
 {
-    return fmt("w=%u backend=%s rows=%zu cols=%zu dim=%zu nthreads=%d batch=%zu content=%d", W, bname[c.backend], c.rows, c.cols, c.dim, c.nthreads, c.batch, c.content);
+    return fmt("w=%u backend=%s rows=%zu cols=%zu dim=%zu nthreads=%d batch=%zu content=%d", W, bname[c.backend], c.rows, c.cols, c.dim, c.nthreads, c.batch, c.content) + (c.outer ? fmt(" outer=%d", c.outer) : std::string());
 }
 static u64 content(int kind, size_t i, size_t n)
 {
@@ -51,8 +51,69 @@ static u64 content(int kind, size_t i, size_t n)
 }
 static const char *sigprefix(const Case &c) { return c.batch ? "merkletree_batch" : "merkletree"; }
 
+static void build_tree(const Case &c, E *tree, E *inp)
+{
+    if (c.batch == 0)
+    {
+        switch (c.backend)
+        {
+        case B_SEQ: PoseidonGoldilocks::merkletree_seq(tree, inp, c.cols, c.rows, c.nthreads, c.dim); break;
+        case B_AVX: PoseidonGoldilocks::merkletree_avx(tree, inp, c.cols, c.rows, c.nthreads, c.dim); break;
+        case B_AVX512:
+#ifdef __AVX512__
+            PoseidonGoldilocks::merkletree_avx512(tree, inp, c.cols, c.rows, c.nthreads, c.dim);
+#endif
+            break;
+        case B_WRAP: PoseidonGoldilocks::merkletree(tree, inp, c.cols, c.rows, c.nthreads, c.dim); break;
+        }
+    }
+    else
+    {
+        switch (c.backend)
+        {
+        case B_SEQ: PoseidonGoldilocks::merkletree_batch_seq(tree, inp, c.cols, c.rows, c.batch, c.nthreads, c.dim); break;
+        case B_AVX: PoseidonGoldilocks::merkletree_batch_avx(tree, inp, c.cols, c.rows, c.batch, c.nthreads, c.dim); break;
+        case B_AVX512:
+#ifdef __AVX512__
+            PoseidonGoldilocks::merkletree_batch_avx512(tree, inp, c.cols, c.rows, c.batch, c.nthreads, c.dim);
+#endif
+            break;
+        case B_WRAP: PoseidonGoldilocks::merkletree_batch(tree, inp, c.cols, c.rows, c.batch, c.nthreads, c.dim); break;
+        }
+    }
+}
+
+// the caller is itself parallel: `outer` threads of a parallel region opened by the harness build a tree at the same time, each
+// from its own input into its own buffer; every caller must get the tree of its own rows
+static void run_case_outer(const pref::Ref &R, const Case &c)
+{
+    size_t nin = c.rows * c.cols * c.dim, ntree = MerklehashGoldilocks::getTreeNumElements(c.rows);
+    const int T = c.outer;
+    std::vector<std::string> fails(T);
+#pragma omp parallel num_threads(T)
+    {
+        int me = omp_get_thread_num();
+        if (me < T)
+        {
+            std::vector<E> in(nin + 1), tr(ntree + 1);
+            std::vector<u64> raw(nin);
+            for (size_t i = 0; i < nin; i++) { raw[i] = (content(c.content, i, nin) + (u64)me * 1000003ULL) & MASK; in[i].fe = raw[i]; }
+            for (auto &e : tr) e.fe = 0x5E5E5E5E5E5E5E5EULL;
+            build_tree(c, tr.data(), in.data());
+            std::vector<u64> ex = R.merkle(raw.data(), c.cols, c.rows, c.dim, c.batch);
+            for (size_t i = 0; i < ntree; i++)
+                if (tr[i].fe > MASK || tr[i].fe % PR != ex[i]) { fails[me] = fmt("caller %d of %d: tree element %zu got %s expected %s", me, T, i, hex(tr[i].fe).c_str(), hex(ex[i]).c_str()); break; }
+        }
+    }
+    rep().stat("transitions", T);
+    rep().stat("evaluations", T);
+    for (auto &f : fails)
+        if (!f.empty()) { rep().viol(fmt("C08.wrong.%s_%s.caller-parallel.w%u", sigprefix(c), bname[c.backend], W), casestr(c), f); return; }
+}
+
 static void run_case(const pref::Ref &R, const Case &c)
 {
+    if (c.outer) { run_case_outer(R, c); return; }
     size_t nin = c.rows * c.cols * c.dim;
     size_t ntree = MerklehashGoldilocks::getTreeNumElements(c.rows);
     if (ntree != 4 * (2 * c.rows - 1))
@@ -67,34 +128,7 @@ static void run_case(const pref::Ref &R, const Case &c)
     const u64 SENT = 0x5E5E5E5E5E5E5E5EULL;
     for (size_t i = 0; i < ntree + 4; i++) tr.p[i].fe = SENT;
     E *tree = tr.p + 4;
-    if (c.batch == 0)
-    {
-        switch (c.backend)
-        {
-        case B_SEQ: PoseidonGoldilocks::merkletree_seq(tree, in.p, c.cols, c.rows, c.nthreads, c.dim); break;
-        case B_AVX: PoseidonGoldilocks::merkletree_avx(tree, in.p, c.cols, c.rows, c.nthreads, c.dim); break;
-        case B_AVX512:
-#ifdef __AVX512__
-            PoseidonGoldilocks::merkletree_avx512(tree, in.p, c.cols, c.rows, c.nthreads, c.dim);
-#endif
-            break;
-        case B_WRAP: PoseidonGoldilocks::merkletree(tree, in.p, c.cols, c.rows, c.nthreads, c.dim); break;
-        }
-    }
-    else
-    {
-        switch (c.backend)
-        {
-        case B_SEQ: PoseidonGoldilocks::merkletree_batch_seq(tree, in.p, c.cols, c.rows, c.batch, c.nthreads, c.dim); break;
-        case B_AVX: PoseidonGoldilocks::merkletree_batch_avx(tree, in.p, c.cols, c.rows, c.batch, c.nthreads, c.dim); break;
-        case B_AVX512:
-#ifdef __AVX512__
-            PoseidonGoldilocks::merkletree_batch_avx512(tree, in.p, c.cols, c.rows, c.batch, c.nthreads, c.dim);
-#endif
-            break;
-        case B_WRAP: PoseidonGoldilocks::merkletree_batch(tree, in.p, c.cols, c.rows, c.batch, c.nthreads, c.dim); break;
-        }
-    }
+    build_tree(c, tree, in.p);
     rep().stat("transitions");
     rep().stat("evaluations");
     std::vector<u64> ex = R.merkle(raw.data(), c.cols, c.rows, c.dim, c.batch);
@@ -139,7 +173,7 @@ int main(int argc, char **argv)
     {
         auto m = parse_case(args.one);
         if (cu(m, "w", 32) != W) { printf("INFO skip width\n"); return 0; }
-        Case c{0, (size_t)cu(m, "rows"), (size_t)cu(m, "cols"), (size_t)cu(m, "dim"), (int)cu(m, "nthreads"), (size_t)cu(m, "batch"), (int)cu(m, "content")};
+        Case c{0, (size_t)cu(m, "rows"), (size_t)cu(m, "cols"), (size_t)cu(m, "dim"), (int)cu(m, "nthreads"), (size_t)cu(m, "batch"), (int)cu(m, "content"), (int)cu(m, "outer", 0)};
         std::string b = cs(m, "backend");
         for (int i = 0; i < NB; i++) if (b == bname[i]) c.backend = i;
         ChildResult r = run_child([&](FILE *f) { dup2(fileno(f), 1); rep().reset(); run_case(R, c); rep().flush(); fflush(stdout); });
@@ -232,6 +266,27 @@ int main(int argc, char **argv)
                         cases.push_back({b, r, cc, d, t, (cc > 4 ? cc / 3 + 1 : 1), (int)((r + cc) % 3)});
                     }
         }
+    }
+    if (!args.num("light", 0))
+    {
+        // called from inside a parallel region of the caller (run_case_outer)
+        long long added = 0;
+        for (int b = 0; b < NB; b++)
+        {
+#ifndef __AVX512__
+            if (b == B_AVX512) continue;
+#endif
+            for (size_t r : {(size_t)1, (size_t)2, (size_t)8, (size_t)64})
+                for (size_t cc : {(size_t)0, (size_t)3, (size_t)9})
+                    for (int t : {0, 1, 3})
+                        for (int outer : {2, 3})
+                        {
+                            cases.push_back({b, r, cc, 1, t, 0, (int)((r + cc) % 3), outer});
+                            cases.push_back({b, r, cc, (size_t)(cc == 3 ? 2 : 1), t, (size_t)2, (int)((r + cc + 1) % 3), outer});
+                            added += 2;
+                        }
+        }
+        rep().stat("cases_called_from_a_parallel_region", added);
     }
     isolated_for((long)cases.size(), args.jobs, 32, [&](long i) { run_case(R, cases[i]); },
                  [&](long i, const ChildResult &r) {
